@@ -62,28 +62,35 @@ Proof. exact not_reported_after_expiry. Qed.
 Print Assumptions C15_not_reported_after_expiry.
 
 (* holds set by the administrator last until the requested time (forever = the largest duration) at the requested
-   level and survive whatever gating snaps, refreshes and the clock do; guarded by: the requested time is not the
-   current instant (see C15_system_hold_until_now_refuted) *)
+   level and survive whatever gating snaps, refreshes and the clock do. `sys_until now t` is the exact end: now + 2^63-1 ns
+   for forever, the requested time u when u <> now (inside the range of a Go duration), and now - 1 ns when u = now (an
+   already expired hold). *)
 Theorem C15_system_hold : forall (st : state) (level : N) (t : option Z) (snaps : list N) (s : N) (ops : list op),
-  In s snaps -> t <> Some (st_now st) -> forallb (sys_untouched s) ops = true ->
+  In s snaps -> forallb (sys_untouched s) ops = true ->
   let st2 := run (step st (SysHold level t snaps)) ops in
   forall lvl, effective st2 lvl s system = (lvl <=? level)%N && (st_now st2 <=? sys_until (st_now st) t).
 Proof. exact system_hold. Qed.
 Print Assumptions C15_system_hold.
 
-Theorem C15_system_hold_end_is_requested_time : forall now u : Z,
-  min_int64 <= u - now <= max_int64 -> sys_until now (Some u) = u.
-Proof. exact sys_until_exact. Qed.
-Print Assumptions C15_system_hold_end_is_requested_time.
+(* in the words of the property: at every instant after the request (and at the instant of the request too, unless the
+   requested time is that very instant) the hold is reported exactly while the requested time has not passed *)
+Theorem C15_system_hold_until_requested_time :
+  forall (st : state) (level : N) (u : Z) (snaps : list N) (s : N) (ops : list op),
+  In s snaps -> min_int64 <= u - st_now st <= max_int64 -> forallb (sys_untouched s) ops = true ->
+  let st2 := run (step st (SysHold level (Some u) snaps)) ops in
+  u <> st_now st \/ st_now st < st_now st2 ->
+  forall lvl, effective st2 lvl s system = (lvl <=? level)%N && (st_now st2 <=? u).
+Proof. exact system_hold_until_requested_time. Qed.
+Print Assumptions C15_system_hold_until_requested_time.
 
-(* the full statement without the guard is false of the faithful model: a system hold requested to end at exactly
-   the current instant is still reported afterwards (it lasts forever). KNOWN_FINDINGS key system-hold-until-now;
-   replayed on the implementation on every run. *)
-Theorem C15_system_hold_until_now_refuted : exists (st0 : state) (s : N),
-  let st := run st0 [SysHold 0 (Some (st_now st0)) [s]; Tick 1] in
-  effective st 0 s system = true /\ st_now st0 < st_now st.
-Proof. exists (init_state (fun _ => - h_ns) 0), 1%N. exact system_hold_until_now_witness. Qed.
-Print Assumptions C15_system_hold_until_now_refuted.
+(* regression witness of the repaired defect (fixed: line in KNOWN_FINDINGS, /repo commit c2c6542): a system hold
+   requested to end at exactly the current instant used to last forever; it is now expired at once. The same history
+   is run on the implementation on every run. *)
+Example C15_system_hold_until_now_expires :
+  let st0 := init_state (fun _ => - h_ns) 0 in
+  effective (run st0 [SysHold 0 (Some (st_now st0)) [1%N]]) 0 1 system = false /\
+  effective (run st0 [SysHold 0 (Some (st_now st0)) [1%N]; Tick 1]) 0 1 system = false.
+Proof. exact system_hold_until_now_expires. Qed.
 
 (* why the quantifier is restricted to default durations: with explicit durations the 48 h bound is false *)
 Theorem C15_explicit_duration_refuted : exists (lr0 : N -> Z) (now0 : Z) (ops : list op),
